@@ -18,7 +18,7 @@ from . import worlds
 # MPE
 
 def mpe_reference(prog):
-    """All evidence-consistent worlds of ``prog`` with their probability.
+    """All evidence-consistent worlds of ``prog`` with the probabilities of their choices.
 
     Returns dict:
         negcycle     the ground program has a cycle through negation (caller skips)
@@ -26,12 +26,11 @@ def mpe_reference(prog):
         nworlds      worlds enumerated
         nchoices     number of ground choices (probabilistic clause instances)
         nlits        number of weighted literals (upper bound of the soft clauses of the MaxSAT encoding)
-        consistent   [(pA, pB, T)] per world satisfying the evidence; T = set of true atoms;
-                     pA = product over *all* ground choices; pB = product over the choices whose clause
-                     body holds in at least one world (a choice whose body is false in every world can
-                     legitimately be absent from the ground program of the implementation)
-        ambiguous    pA and pB differ for some world
-        best_a, best_b   max over consistent worlds (Fraction; 0 if none)
+        consistent   [(probs, T)] per world satisfying the evidence; probs[i] = probability of the option taken
+                     by choice i, T = set of true atoms
+        excludable   indices of the choices that a goal-directed grounder may legitimately leave out of the
+                     ground program: the clause body is false in every world (never fires), or the selection
+                     never changes the model (e.g. ``0.3::p. p.``)
         pe           P(evidence)
     """
     gp = worlds.GroundProgram(prog)
@@ -39,12 +38,13 @@ def mpe_reference(prog):
     qatoms = [worlds.atom_str(q) for q in prog.get("queries", [])]
     universe = gp.atoms() | set(qatoms) | set(a for a, _ in ev)
     choice_insts = [inst for inst in gp.instances if any(p is not None for p, _ in inst[2])]
-    res = dict(negcycle=gp.has_negative_cycle(), twovalued=True, nworlds=0, nchoices=len(choice_insts),
-               nlits=sum(len(inst[2]) + 1 for inst in choice_insts), consistent=[], ambiguous=False,
-               best_a=Fraction(0), best_b=Fraction(0), pe=Fraction(0), gp=gp)
+    n = len(choice_insts)
+    res = dict(negcycle=gp.has_negative_cycle(), twovalued=True, nworlds=0, nchoices=n,
+               nlits=sum(len(inst[2]) + 1 for inst in choice_insts), consistent=[], excludable=[],
+               pe=Fraction(0), gp=gp)
     if res["negcycle"]:
         return res
-    fires = [False] * len(choice_insts)
+    fires = [False] * n
     rows = []
     for pw, rules, combo in gp.worlds():
         res["nworlds"] += 1
@@ -55,19 +55,21 @@ def mpe_reference(prog):
         for i, (ci, vals, heads, pos, neg) in enumerate(choice_insts):
             if not fires[i] and all(a in T for a in pos) and all(a not in T for a in neg):
                 fires[i] = True
-        if all((a in T) == v for a, v in ev):
-            rows.append((pw, combo, T))
+        rows.append((pw, combo, frozenset(T)))
+    for i in range(n):
+        inert = True
+        seen = {}
+        for pw, combo, T in rows:
+            k = tuple(h for j, (p, h) in enumerate(combo) if j != i)
+            if seen.setdefault(k, T) != T:
+                inert = False
+                break
+        if inert or not fires[i]:
+            res["excludable"].append(i)
     for pw, combo, T in rows:
-        pb = Fraction(1)
-        for i, (p, h) in enumerate(combo):
-            if fires[i]:
-                pb *= p
-        res["consistent"].append((pw, pb, T))
-        res["pe"] += pw
-        if pb != pw:
-            res["ambiguous"] = True
-        res["best_a"] = max(res["best_a"], pw)
-        res["best_b"] = max(res["best_b"], pb)
+        if all((a in T) == v for a, v in ev):
+            res["consistent"].append(([p for p, h in combo], T))
+            res["pe"] += pw
     return res
 
 
